@@ -393,6 +393,50 @@ def helper_ops(E, which):
         run_op(E, "tt_union_rows", [a, b], lambda: U.tt_union_rows(a, b))
 
 
+# ------------------------------------------------------------------------------------------ memory layout
+
+def _layout_params():
+    import itertools
+    out = []
+    for shape in [(2, 1, 3), (1, 2), (2, 1), (1, 3, 1), (2, 2, 1), (1, 1, 2, 2)]:
+        N = len(shape)
+        for k in range(N + 1):
+            for rd in itertools.permutations(range(N), k):
+                rest = [m for m in range(N) if m not in rd]
+                cds = list(itertools.permutations(rest)) if N <= 3 else [tuple(rest), tuple(rest[::-1])]
+                for cd in cds:
+                    out.append(dict(shape=shape, rdims=rd, cdims=cd))
+    return out
+
+
+@ob("C05", params=_layout_params(), max_paths=200, wall_s=120,
+    bounds="shapes with singleton modes (where a transposed array can stay contiguous, so that a 'the transpose allocates' assumption fails): "
+           "every ordered split of the modes into row / column modes; tensor <-> tenmat, copies, permute by the split's order, reshape, squeeze")
+def layout_aliasing(E, shape, rdims, cdims):
+    """conversions whose copies depend on the memory layout: results never share memory with the operand, for every mode split of shapes with singleton modes"""
+    X = O.dense(E, "x", shape)
+    rd, cd = np.array(rdims, dtype=int), np.array(cdims, dtype=int)
+    TM = run_op(E, "tensor.to_tenmat(rdims, cdims)", [X], lambda: X.to_tenmat(rd, cd))
+    if TM is not None:
+        run_op(E, "tenmat.to_tensor", [TM], lambda: TM.to_tensor())
+        run_op(E, "tenmat.copy", [TM], lambda: TM.copy())
+        run_op(E, "tenmat.double", [TM], lambda: TM.double())
+        run_op(E, "tenmat.ctranspose", [TM], lambda: TM.ctranspose())
+        run_op(E, "tenmat(data) copy=True", [TM], lambda: ttb.tenmat(TM.data, TM.rindices, TM.cindices, TM.tshape))
+    order = np.array(list(rdims) + list(cdims), dtype=int)
+    run_op(E, "tensor.permute(split order)", [X], lambda: X.permute(order))
+    run_op(E, "tensor.squeeze", [X], lambda: X.squeeze())
+    run_op(E, "tensor.reshape(permuted shape)", [X], lambda: X.reshape(tuple(shape[m] for m in order)))
+    run_op(E, "tensor.copy", [X], lambda: X.copy())
+    run_op(E, "tensor(data) copy=True", [X], lambda: ttb.tensor(X.data))
+    S = X.to_sptensor()
+    SM = run_op(E, "sptensor.to_sptenmat(rdims, cdims)", [S], lambda: S.to_sptenmat(rd, cd))
+    if SM is not None:
+        run_op(E, "sptenmat.to_sptensor", [SM], lambda: SM.to_sptensor())
+    run_op(E, "sptensor.permute(split order)", [S], lambda: S.permute(order))
+    run_op(E, "sptensor.squeeze", [S], lambda: S.squeeze())
+
+
 # ------------------------------------------------------------------------------------------ algorithm entry points
 
 @ob("C05", params=[dict(alg="gcp_opt", init="ktensor"), dict(alg="gcp_opt", init="list"), dict(alg="tucker_als", init="list")],
